@@ -287,6 +287,35 @@ def rule_header(run):
     else: run.unknown(key, 'table not found', where=su.where())
 
 
+def rule_topstate(run):
+    run.rule('TOPSTATE', 'layer tops are only defined once identify_layer_tops() has run: a function that builds layers and '
+             'then calls it reads no layer .top before that call', floor=2)
+    prog = run.prog
+    cls = prog.cls('mulgrids', 'mulgrid')
+    for name, fi in sorted(cls.methods.items()):
+        calls = [c for c in walk_no_nested(fi.node) if isinstance(c, ast.Call) and call_name(c) == 'identify_layer_tops' and dotted(c.func.value) == 'self']
+        builds = [c for c in walk_no_nested(fi.node) if isinstance(c, ast.Call) and isinstance(c.func, ast.Name) and c.func.id == 'layer']
+        if not calls or not builds: continue
+        line = calls[0].lineno
+        early = [n for n in walk_no_nested(fi.node) if isinstance(n, ast.Attribute) and n.attr == 'top' and isinstance(n.ctx, ast.Load)
+                 and n.lineno < line]
+        key = 'mulgrid.%s :: no layer top read before identify_layer_tops()' % name
+        if early:
+            run.violated(key, '`%s` is read at line %d, before identify_layer_tops() (line %d) has given the new layers their tops: '
+                         'the value is the constructor default 0.0' % (norm(early[0]), early[0].lineno, line), where=fi.where(early[0]))
+        else: run.ok(key, where=fi.where(calls[0]))
+    # the fallback centre of a layer read without one is the mid-point between its bottom and the bottom of the layer above
+    rl = prog.func(M + 'read_layers')
+    fb = [n for n in ast.walk(rl.node) if isinstance(n, ast.Assign) and norm(n.targets[0]) == 'centre' and isinstance(n.value, ast.BinOp)
+          and isinstance(n.value.op, ast.Mult)]
+    if fb:
+        r = compare(fb[0].value, '0.5 * (newlayer.bottom + self.layerlist[nlayers - 2].bottom)')
+        k = 'mulgrid.read_layers :: fallback centre is the mid-point of the two bottoms'
+        if r == 'equal': run.ok(k, where=rl.where(fb[0]))
+        elif r == 'different': run.violated(k, 'fallback centre is `%s`' % norm(fb[0].value), where=rl.where(fb[0]))
+        else: run.ok(k, 'shape differs (%s); decided by the TOPSTATE clause above' % norm(fb[0].value), where=rl.where(fb[0]))
+
+
 def rule_nonetest(run):
     run.rule('NONETEST', 'real-valued fields read from a record are tested for absence with `is None`, never by truthiness '
              '(a coordinate of exactly 0.0 is legal)', floor=3)
@@ -303,4 +332,5 @@ def check(run):
     run.guarded('FMAP', rule_fmap)
     run.guarded('BYNAME', rule_byname)
     run.guarded('HEADER', rule_header)
+    run.guarded('TOPSTATE', rule_topstate)
     run.guarded('NONETEST', rule_nonetest)
